@@ -12,8 +12,6 @@ def wal_str(sexpr):
             txt = f"'{wal_str(sexpr[1])}"
         elif len(sexpr) == 2 and sexpr[0] == Operator.QUASIQUOTE:
             txt = f"`{wal_str(sexpr[1])}"
-        elif len(sexpr) == 2 and sexpr[0] == Operator.UNQUOTE:
-            txt = f",{wal_str(sexpr[1])}"
         elif len(sexpr) == 3 and sexpr[0] == Symbol('reval'):
             txt = f'{wal_str(sexpr[1])}@{sexpr[2]}'
         elif len(sexpr) > 0 and sexpr[0] == Operator.ARRAY:
